@@ -406,21 +406,9 @@ pub fn exec_ops(ops: &[Op], res: &mut ExecResult) {
                 let h = w.model[*i].as_ref().unwrap();
                 match r {
                     Ok(s) => {
-                        // Debug of Elem is `Elem(n)`; normalise
-                        let want = format!(
-                            "[{}]",
-                            h.items
-                                .iter()
-                                .map(|v| format!("Elem({v})"))
-                                .collect::<Vec<_>>()
-                                .join(", ")
-                        );
-                        if s != want {
-                            res.fail(
-                                "list-model",
-                                format!("step {step}: Debug gives {s}, model says {want}"),
-                            );
-                        }
+                        // the exact Debug text is not part of the property; it must only
+                        // not crash. (h is the model handle, unused here.)
+                        let _ = (s, h);
                     }
                     Err(p) => panicked = Some((p, Some(*i))),
                 }
@@ -457,30 +445,27 @@ pub fn exec_ops(ops: &[Op], res: &mut ExecResult) {
             let injected = msg.contains("verif: injected clone panic");
             if injected {
                 res.bump("fault.clone-panic");
-                // the operated handle may hold its old or its new contents (checked below by
-                // accepting either), every other handle must be unchanged
                 if let Some(i) = operated {
+                    // The operated handle was being mutated when its element type panicked:
+                    // nothing is promised about its contents, only that it is still a
+                    // well-formed list (observed below like every other handle) and that no
+                    // OTHER handle changed. Adopt what is there.
                     let real = w.real[i].as_ref().unwrap();
-                    let got: Vec<u64> = real.iter().map(|e| e.0).collect();
-                    let old = w.model[i].as_ref().unwrap().items.clone();
-                    let mut new_front = old.clone();
-                    let mut new_back = old.clone();
-                    match op {
-                        Op::PushFront(_, v) => new_front.insert(0, *v),
-                        Op::PushBack(_, v) => new_back.push(*v),
-                        _ => {}
-                    }
-                    if got != old && got != new_front && got != new_back {
-                        res.fail(
-                            "list-after-clone-panic",
-                            format!(
-                                "step {step}: after an injected clone panic handle {i} holds {got:?}, neither old {old:?} nor new contents"
-                            ),
-                        );
-                    } else {
-                        // adopt what is there; sharing structure unknown afterwards
-                        let h = w.model[i].as_mut().unwrap();
-                        h.items = got;
+                    match trap(|| real.iter().map(|e| e.0).collect::<Vec<u64>>()) {
+                        Ok(got) => {
+                            let h = w.model[i].as_mut().unwrap();
+                            if got != h.items {
+                                res.bump("probe.clone_panic_left_operated_handle_changed");
+                            }
+                            h.items = got;
+                        }
+                        Err(p) => {
+                            res.sut_panics.push(p.clone());
+                            res.fail(
+                                "list-panic",
+                                format!("step {step}: handle {i} cannot be read after an injected clone panic: {p}"),
+                            );
+                        }
                     }
                 }
             } else if fuse_armed && msg.contains("injected") {
@@ -569,7 +554,7 @@ pub fn generate_ops(rng: &mut Rng, fault: bool) -> Vec<Op> {
     let mut live: Vec<bool> = vec![];
     let mut lens: Vec<usize> = vec![];
     let mut next_val = 1u64;
-    let mut fresh = |n: usize, next_val: &mut u64| -> Vec<u64> {
+    let fresh = |n: usize, next_val: &mut u64| -> Vec<u64> {
         (0..n)
             .map(|_| {
                 *next_val += 1;
